@@ -58,6 +58,7 @@ def run(ctx):
     ctx.do(rule_privileged_keys)
     ctx.do(rule_raw_passthrough)
     ctx.do(rule_extra_props)
+    ctx.do(rule_predicate_categories)
     # "is this referenced type custom?" is a question about one spec version: the registry predicates must be asked with
     # the version of the asking property, or a 2.1-only type counts as a standard reference of a 2.0 object
     from .C14 import rule_version_in_scope
@@ -387,6 +388,25 @@ def rule_flag_back(ctx):
         pr = fl.prov(s.value, g.node_of(s))
         if init.kwarg in pr.params and "_properties" in pr.selfattrs:
             seed_ok = True
+    # ... and counts exactly the custom properties that are KEPT: the set of values meaning "not given" in the seed is the
+    # set the storing loop uses (None and []), neither ignored (a null custom property would flag an object that holds
+    # nothing custom) nor wider (a kept `{}` would not be flagged)
+    def absent_sets(node):
+        out = []
+        for x in ast.walk(node):
+            if isinstance(x, ast.Compare) and len(x.ops) == 1 and isinstance(x.ops[0], (ast.NotIn, ast.In)) \
+                    and isinstance(x.comparators[0], (ast.Tuple, ast.List, ast.Set)):
+                out.append(frozenset(norm(e_) for e_ in x.comparators[0].elts))
+        return out
+    store_sets = [a_ for st_ in loops[0].body for a_ in absent_sets(st_)]
+    seed_sets = [a_ for s_ in seeds for a_ in absent_sets(s_.value)]
+    agree = bool(store_sets) and bool(seed_sets) and set(seed_sets) == set(store_sets) == {frozenset(("None", "[]"))}
+    run.check(agree, R, key(rel, init.qualname, "seed-counts-exactly-the-kept-custom-properties"),
+              "the custom-content flag is seeded from custom properties by another notion of 'given' than the one that decides "
+              "what is stored: the flag and the stored content disagree (a null custom property flags an object that holds "
+              "nothing custom / a kept empty value is not flagged)", file=rel, line=seeds[0].lineno if seeds else init.node.lineno,
+              function=init.qualname, expected="`not in (None, [])` in the seed and in the storing loop",
+              found={"seed": [sorted(x) for x in seed_sets], "store": [sorted(x) for x in store_sets]})
     run.check(seed_ok, R, key(rel, init.qualname, "seeded-by-custom-property-names"),
               "custom top-level properties no longer set the flag", file=rel, line=init.node.lineno, function=init.qualname,
               expected="flag = bool(<keyword names that are not defined properties>)", found=[short(s) for s in seeds])
@@ -579,6 +599,38 @@ def rule_privileged_keys(ctx):
                               expected="key passed explicitly / removed / refused, or a strict-mode post-check on the result",
                               found=short(call))
     run.floor(R, 10)
+
+
+PREDICATE_CATEGORIES = {"is_sdo": {"objects"}, "is_sco": {"observables"}, "is_object": {"objects", "observables"}}
+
+
+def rule_predicate_categories(ctx):
+    """"Is the referenced type a standard object type?" is asked of the object / observable registries only.  A lookup
+    without a category (or in the marking / extension maps) makes 'ntfs-ext--<uuid>' or 'statement--<uuid>' a standard
+    reference: accepted in strict mode, has_custom False."""
+    run = ctx.run
+    prog = ctx.prog
+    R = "C04.predicate-categories"
+    for name, want in sorted(PREDICATE_CATEGORIES.items()):
+        fi = prog.func("stix2.utils::%s" % name)
+        got = set()
+        uncategorised = []
+        for x in body_walk(fi.node):
+            if isinstance(x, ast.Subscript) and isinstance(x.slice, ast.Constant) and isinstance(x.slice.value, str) \
+                    and x.slice.value in ("objects", "observables", "markings", "extensions"):
+                got.add(x.slice.value)
+            if isinstance(x, ast.Call) and call_simple_name(x) == "class_for_type":
+                cat = x.args[2] if len(x.args) >= 3 else next((k.value for k in x.keywords if k.arg == "category"), None)
+                if isinstance(cat, ast.Constant) and isinstance(cat.value, str):
+                    got.add(cat.value)
+                else:
+                    uncategorised.append(x)
+        run.check(got == want and not uncategorised, R, key(fi.module.relpath, fi.qualname, "registry-categories"),
+                  "%s() consults %s%s instead of exactly %s: names registered in another category (extensions, markings) count as "
+                  "standard object types, so a reference to them is admitted in strict mode and not flagged as custom"
+                  % (name, sorted(got), " and a lookup without a category" if uncategorised else "", sorted(want)),
+                  file=fi.module.relpath, line=fi.node.lineno, function=fi.qualname, expected=sorted(want),
+                  found=sorted(got) + [short(u) for u in uncategorised])
 
 
 EXT_TYPES = ("new-sdo", "new-sco", "new-sro", "property-extension", "toplevel-property-extension")
